@@ -155,6 +155,18 @@ theorem mem_tagPairs {ρ : Ren} {c c' : Tag} (h : renameTag ρ c = some c') : (c
     simp only [List.mem_append, List.mem_map]
     exact Or.inr ⟨(r, r'), this, rfl⟩
 
+theorem fparamOK_spec {P P' : Prog} {tags : List (Tag × Tag)} {f f' : Nat}
+    (h : fparamOK P P' tags (f, f') = true) {c c' : Tag} (hc : (c, c') ∈ tags) :
+    P.msgCompatFn f c = P'.msgCompatFn f' c' := by
+  unfold fparamOK at h
+  simpa using List.all_eq_true.mp h (c, c') hc
+
+theorem bparamOK_spec {P P' : Prog} {tags : List (Tag × Tag)} {b b' : Nat}
+    (h : bparamOK P P' tags (b, b') = true) {c c' : Tag} (hc : (c, c') ∈ tags) :
+    P.msgCompatBuiltin b c = P'.msgCompatBuiltin b' c' := by
+  unfold bparamOK at h
+  simpa using List.all_eq_true.mp h (c, c') hc
+
 theorem canonOK_spec {ρ : Ren} {P P' : Prog} (h : canonOK ρ P P' = true) {a a' b b' : Nat}
     (ha : ρ.tuple.get a = some a') (hb : ρ.tuple.get b = some b') :
     (P.canonOf a = P.canonOf b ↔ P'.canonOf a' = P'.canonOf b') := by
